@@ -221,13 +221,28 @@ def cache_job(a):
             calls = []
             for _ in range(6):
                 x = base + r.choice([0, 0.004, 0.04, 0.4, -0.004, 1e-9])
-                if r.random() < .3 and kmk != 'raw': x = [x, r.choice([1, 'a', 2.55])] if r.random() < .5 else {'q': x}
+                if r.random() < .3 and (kmk != 'raw' or mod == 'safe'): x = [x, r.choice([1, 'a', 2.55])] if r.random() < .5 else {'q': x}
                 form = r.choice(['pos', 'kw', 'default', 'extra'])
                 calls.append((form, x))
             keys, viol = [], []
             for form, x in calls:
                 args, kw = {'pos': ((x, 0.5), {}), 'kw': ((), {'x': x, 'y': 0.5}), 'default': ((x,), {}), 'extra': ((x, 0.5, 1.26), {'z': 2.345})}[form]
                 n0 = len(SEEN)
+                if kmk == 'raw' and isinstance(x, (list, dict)):
+                    # safe decorator, raw keymap, unhashable argument: the key is unusable and the wrapper must fall back to
+                    # evaluating the function - on the caller's own objects, once, without raising
+                    try:
+                        f(*args, **kw)
+                        sx, sy, srest, skw = SEEN[-1]
+                        if len(SEEN) != n0 + 1 or sx is not (args[0] if args else kw['x']) or (len(args) > 1 and sy is not args[1]) or \
+                           not all(a_ is b_ for a_, b_ in zip(srest, args[2:])) or any(skw[n_] is not kw[n_] for n_ in skw if n_ in kw):
+                            viol.append(dict(prop='C12', sig=dict(kind='function-saw-rounded-arguments', dec='%s.%s' % (mod, nm)),
+                                             msg='%s.%s(tol=%r, raw keymap, unhashable argument): the function received %r instead of the original %r (evaluations: %d)' % (
+                                                 mod, nm, tol, SEEN[-1], (args, kw), len(SEEN) - n0)))
+                    except Exception as e:
+                        viol.append(dict(prop='C12', sig=dict(kind='valid-call-fails', dec='%s.%s' % (mod, nm), exc=type(e).__name__, deep=deep),
+                                         msg='%s.%s(tol=%r, deep=%r, raw) raised %s: %s on the valid call %r %r' % (mod, nm, tol, deep, type(e).__name__, e, args, kw)))
+                    continue
                 try:
                     kk = f.key(*args, **kw)
                     f(*args, **kw)
